@@ -11,7 +11,7 @@
    EVERY schedule, the repaired code (v0 = false). *)
 From SC Require Import Base.Prelude Resource.Impl Resource.Spec Resource.Pull Resource.ImplProofs
   Resource.Flat Resource.FlatProofs Resource.Judge Conc.Lts Conc.LtsProofs Conc.DeleteProofs Conc.FlatInst Conc.Judge
-  Conc.GenLts Conc.GenProofs Conc.LinSound Conc.AtomicDefs Gen.C02Atomic Conc.AtomicTable Conc.CfgLts Conc.CfgProofs Conc.CreatedProofs.
+  Conc.GenLts Conc.GenProofs Conc.LinSound Conc.AtomicDefs Gen.C02Atomic Conc.AtomicTable Conc.CfgLts Conc.CfgProofs Conc.CreatedProofs Conc.AgreesOk.
 From Coq Require Import Sorted.
 
 Section C02.
@@ -334,6 +334,23 @@ Theorem C02_checker_complete : forall i vinit cinit hist fv fc order,
   linearizable_b i vinit cinit hist fv fc = true.
 Proof. exact linearizable_b_complete. Qed.
 Print Assumptions C02_checker_sound.
+
+(* ---------- forced schedules: the two halves of the verdict are tied (Conc/AgreesOk.v) ----------
+   If the implementation agreed with the transition system on a forced schedule (CaseSched / CaseCfg), the
+   independent checker accepts the history -- the linearization it finds is the witness order of
+   C02_linearizable, seen through the checker's own stamps (first / last schedule index of each thread).
+   forced_guard (computable from the case): no subscriber without backpressure; initial contents sorted by
+   id; every returned code is one the call can return (allowed_code); no check / validation of the run itself
+   answered Aborted for a Set / Update or Unavailable for a Delete (the checker reads those two codes as "lost
+   a race").  CaseGen (generated ids) is not covered: the guard is false there. *)
+Theorem C02_agrees_implies_ok : forall c, forced_guard c = true -> agrees c = true -> C02_ok c = true.
+Proof. exact agrees_implies_C02_ok. Qed.
+
+(* so verdict 2 ("model agrees, predicate fails") cannot occur on such a case *)
+Theorem C02_forced_verdict_never_2 : forall c, forced_guard c = true -> judge02 c <> 2.
+Proof. exact judge02_never_2. Qed.
+Print Assumptions C02_agrees_implies_ok.
+Print Assumptions C02_forced_verdict_never_2.
 Print Assumptions C02_checker_complete.
 
 (* ---------- the lock discipline that makes the model's steps atomic, on today's source ---------- *)
@@ -558,4 +575,12 @@ Example C02_nonvacuous_two_adds_fixed :
   let s := f_run false None two_adds [0; 1; 0; 1; 0]%nat None [] in
   map (@result_of fmsg) (st_pcs s) = [Some (OVal (inl (mkF 10 0 0))); Some (OLost 10)] /\
   final_list (w_c (st_w s)) = [("a"%string, mkF 10 0 0)].
+Proof. vm_compute. repeat split; reflexivity. Qed.
+
+(* the hypotheses of C02_agrees_implies_ok are met by a case with a lost race (the Aborted call is dropped
+   by the checker and is absent from the witness) *)
+Example C02_nonvacuous_agrees_implies_ok :
+  let c := CaseSched None (Some (mkF 5 0 0)) [] two_deltas [0; 1; 0; 1; 0]%nat
+                     [mkFO (Some (mkF 8 0 0)) 0; mkFO None 10] (Some (mkF 8 0 0)) [] [] [] [] in
+  forced_guard c = true /\ agrees c = true /\ C02_ok c = true.
 Proof. vm_compute. repeat split; reflexivity. Qed.
